@@ -3,7 +3,9 @@
 Pipeline: (1) build Props/C13 (theorems over the Lean model lean/Jap/Core/Resolver.lean: the
 resolver's algorithm `resolve` and, independently, Python's keyword binding `accepts`);
 (2) correspondence, both sides of the iff: generated programs (class hierarchies, call chains,
-pop/get, hard-coded arguments, constant and non-constant conditionals, **kwargs kept in an attribute
+pop/get (as statements and NESTED INSIDE THE ARGUMENT LIST of the forwarding call: positional slot, keyword
+value, inside arithmetic / a call / a list display), hard-coded arguments, constant and non-constant
+conditionals, **kwargs kept in an attribute
 and forwarded by a method/property, classmethod factories `cls(**kwargs)` asked for on the defining
 class, on subclasses that inherit them, through class_from_function and through functions calling
 `Sub.factory(**kwargs)`) are WRITTEN TO REAL SOURCE
@@ -1592,6 +1594,12 @@ def run(ctx: Ctx):
         "attribute use: `self._kwN = kwargs` (or dict() + update(**kwargs)) is forwarded by ONE method/property of the same class to a function/class, "
         "and __init__ exercises that member right after storing (so the interpreter's verdict is observable at construction); one such attribute per class; "
         "in the model this is `Target.attrEntry` (same callee, does not feed the shared removed set) and C13_exact covers it",
+        "reads nested in an argument list: `**kwargs` is always written last in the call, so Python evaluates the nested pops before unpacking it "
+        "(the model's `runUses` states this order: `Use.popIn` entries follow their call in AST-visit order and are consumed before it binds); "
+        "a nested kwargs.get is a plain get after the call; nested reads are not generated on the attribute path (the resolver does not look there)",
+        "type/default oracle: the definition a name answers to is its FIRST consumer on the traced call (a pop — statement or nested — or the first "
+        "signature that binds it by keyword); which of several agreeing definitions the resolver shows first is only judged there "
+        "(open finding C13-nested-pop-takes-callee-signature), it is not a theorem",
         "inherited classmethods: the model's class lists every classmethod the class OFFERS (own and inherited; the attribute lookup is an input "
         "computed from the real MRO, like the MRO itself); class_from_function(Sub.factory) is compared at the parser surface only",
         "a branch of an if-chain that cannot be executed at all (its callee misses a required argument) is not an observation about acceptance",
